@@ -316,6 +316,17 @@ func run(tapeJSON json.RawMessage, res *core.Result) {
 			// life, renewable) may have expired by now
 			simrt.SleepExact(tp.GapS * int64(time.Second))
 		}
+		if tp.KDCDown != "" {
+			b := world.Behaviour{Kind: "refuse"}
+			switch tp.KDCDown {
+			case "silent":
+				b.Kind = "silent"
+			case "close":
+				b = world.Behaviour{Kind: "close", Arg: 0}
+			}
+			net.Down.Store(&b)
+			res.Probes["kdc-unreachable-during-the-call"]++
+		}
 		p, frame, msg := engine.Guard(func() {
 			var rdr io.Reader
 			method := tp.Method
@@ -439,10 +450,10 @@ func run(tapeJSON json.RawMessage, res *core.Result) {
 				// the call ended here.  Handing the 401 back is fine; so is an error - unless the
 				// challenge answered a request without a token and the client then failed to produce
 				// one although KDC, network and name resolution are healthy
-				if !ownAuth(e) && opErr != nil && panicMsg == "" && !srv.excess {
+				if !ownAuth(e) && opErr != nil && panicMsg == "" && !srv.excess && tp.KDCDown == "" {
 					viol("challenge-not-answered", "the call ended with an error instead of a retry carrying a token: "+opErr.Error())
 				}
-				if !ownAuth(e) && opErr == nil && panicMsg == "" && !srv.excess {
+				if !ownAuth(e) && opErr == nil && panicMsg == "" && !srv.excess && tp.KDCDown == "" {
 					// "when a server answers 401 with a Negotiate challenge, the client retries with an
 					// Authorization header": this challenge answered a request that carried no token of
 					// this call, and the 401 was handed back without a retry
@@ -518,7 +529,7 @@ func run(tapeJSON json.RawMessage, res *core.Result) {
 		if len(tp.Warm) > 0 {
 			res.Probes["redirect-after-reuse"]++
 		}
-		if redirects < 5 && opErr != nil {
+		if redirects < 5 && opErr != nil && tp.KDCDown == "" {
 			d.Why = fmt.Sprintf("the call ended after %d redirect(s) of this call with: %v", redirects, opErr)
 			engine.Violate(res, "redirect-not-followed|reused-client", d)
 		}
